@@ -8,7 +8,7 @@ from fractions import Fraction
 from .. import calg
 from ..pymodel import package
 from ..ratemodel import model as ratemodel, SELF
-from ..valueflow import Flow, show, simp, walk
+from ..valueflow import Flow, norm_guard, show, simp, split_guard, walk
 from .c10 import grain_methods, GRAIN_CLASSES
 
 EXPLANATION = (
@@ -172,9 +172,35 @@ def check(ctx):
     # reac.rateexpr(grain) itself, nothing catches NotImplementedError and substitutes a rate (shared with C06.R1)
     from .c06 import _r1 as assignment_rule
     ctx.absorb(assignment_rule, "R9")
+    _r9_refusal_not_caught(ctx, pkg)
     # occurrences count: no set / dict keyed by the species stands between a reactant list and the terms built from it
     from ..multiplicity import rule as multiplicity_rule
     multiplicity_rule(ctx, "R10", ['grain'], "the surface rate coefficient")
+
+
+def _r9_refusal_not_caught(ctx, pkg):
+    """Positive half of R9: wherever the package asks for a rate expression (`<x>.rateexpr(..)`), the call does not sit in a `try`
+    whose handler catches the refusal (NotImplementedError, or a class above it) and carries on without re-raising."""
+    CATCHES = {"NotImplementedError", "RuntimeError", "Exception", "BaseException"}
+    n = 0
+    for file, mod in pkg.modules.items():
+        for t in ast.walk(mod):
+            if not isinstance(t, ast.Try):
+                continue
+            calls = [c for st in t.body for c in ast.walk(st) if isinstance(c, ast.Call) and isinstance(c.func, ast.Attribute) and c.func.attr == "rateexpr"]
+            if not calls:
+                continue
+            n += 1
+            for h in t.handlers:
+                names = {"BaseException"} if h.type is None else {ast.unparse(e).split(".")[-1] for e in (h.type.elts if isinstance(h.type, ast.Tuple) else [h.type])}
+                if not (names & CATCHES):
+                    continue
+                reraises = any(isinstance(x, ast.Raise) for st in h.body for x in ast.walk(st))
+                ctx.check(reraises, "R9", f"{file}:rateexpr() refusal handled", (file, h.lineno),
+                          "the handler re-raises" if reraises else
+                          f"`except {', '.join(sorted(names))}` around {ast.unparse(calls[0])[:50]} carries on without raising: a request the dust model refuses "
+                          "(NotImplementedError) yields a substitute rate instead of an error", expected="no handler, or a handler that re-raises", found=ast.unparse(h)[:100])
+    ctx.stats["try_blocks_around_rateexpr"] = n
 
 
 def _r8(ctx, pkg):
@@ -527,32 +553,51 @@ def _r3(ctx, pkg):
         ctx.check(not writes, "R3", f"Species.{prop}:no-caching", (SPECIES, writes[0].line if writes else fn.lineno),
                   "the getter does not store the looked-up value in the instance (a later user override / table update is honoured)" if not writes else
                   f"the getter assigns self.{writes[0].target}: the first looked-up value is frozen and later user overrides are ignored")
-        # lookup order: the returned `or` chain starts with the explicit value, then the user table, then the built-in
-        rets = [f for f in fl.facts if f.kind == "return"]
-        src = ast.unparse(fn)
-        order_ok = False
-        found = ""
+        # lookup order, read off the return facts whatever the spelling (one `or` chain, guard clauses with early returns, a mix):
+        # the sources a return has tried are the conditions that were FALSE on its path followed by the operands of the returned
+        # `or` chain; each must be the first k of (explicit value, user table, built-in table), and some return tries them all
+        def kind_of(x, attr=attr, user=user, table=table):
+            if x == ("attr", SELF, attr):
+                return "explicit"
+            names = {y[2] for y in walk(x) if isinstance(y, tuple) and len(y) == 3 and y[0] == "attr"} | \
+                    {y[1] for y in walk(x) if isinstance(y, tuple) and len(y) == 2 and y[0] == "global"}
+            if user in names:
+                return "user"
+            if table and table in names:
+                return "table"
+            return None
+
+        def falsy(g):
+            """source a guard declares empty: (x, False) / (x is None, True) / (x == None, True)"""
+            c, pol = norm_guard(g)
+            if c[0] == "cmp" and c[1] in (("Is",), ("Eq",)) and len(c[2]) == 2 and c[2][1] == ("const", None):
+                c, pol = c[2][0], not pol
+            return c if not pol else None
+        want = ["explicit", "user"] + (["table"] if table else [])
+        rets = [f for f in fl.facts if f.kind == "return" and f.value is not None]
+        chains, opaque = [], []
         for f in rets:
             v = simp(f.value)
-            if v[0] == "bool" and v[1] == "Or":
-                parts = [show(x) for x in v[2]]
-                found = " or ".join(p[:50] for p in parts)
-                i_exp = next((i for i, p in enumerate(parts) if attr in p), None)
-                i_usr = next((i for i, p in enumerate(parts) if user in p), None)
-                i_tab = next((i for i, p in enumerate(parts) if table and table in p), None)
-                order_ok = i_exp == 0 and i_usr is not None and i_usr > i_exp and (i_tab is None or i_tab > i_usr)
-        if not order_ok:
-            # statement form: eb = self._x or user.get(..) or table.get(..)
-            m = re.search(r"=\s*(self\." + re.escape(attr) + r"[^\n]*)", src)
-            if m:
-                chain = m.group(1)
-                found = chain[:120]
-                i_exp = chain.find(attr)
-                i_usr = chain.find(user)
-                i_tab = chain.find(table) if table else -1
-                order_ok = i_exp == 5 and i_usr > i_exp and (i_tab < 0 or i_tab > i_usr)
-        ctx.check(order_ok, "R3", f"Species.{prop}:lookup-order", (SPECIES, fn.lineno),
-                  "explicit value, then the user table, then the built-in table", expected=f"self.{attr} or {user}.get(..) or <built-in>", found=found)
+            tried = [c for g in f.guards for sg in split_guard((simp(g[0]), g[1])) for c in [falsy(sg)] if c is not None]
+            tried = [c for c in tried if kind_of(c)]
+            parts = list(v[2]) if v[0] == "bool" and v[1] == "Or" else [v]
+            opaque += [show(x)[:50] for x in parts if kind_of(x) is None]
+            chains.append([kind_of(x) for x in tried + parts if kind_of(x)])
+        found = "; ".join(" -> ".join(c) for c in chains)
+        # a source tested and then returned (or tested twice) counts once, at its first consultation
+        dedup = [[k for i, k in enumerate(c) if k not in c[:i]] for c in chains]
+        misordered = [c for c in dedup if c != want[:len(c)]]
+        complete = any(c == want for c in dedup)
+        key_ = f"Species.{prop}:lookup-order"
+        if misordered:
+            ctx.bad("R3", key_, (SPECIES, fn.lineno), f"a source of lower priority is consulted before one of higher priority ({' -> '.join(misordered[0])})",
+                    expected=f"self.{attr} or {user}.get(..) or <built-in>", found=found)
+        elif complete:
+            ctx.ok("R3", key_, (SPECIES, fn.lineno), "explicit value, then the user table, then the built-in table")
+        elif opaque or not rets:
+            ctx.unrec("R3", key_, (SPECIES, fn.lineno), f"cannot tell which sources the getter consults: returned {opaque or 'nothing'}")
+        else:
+            ctx.bad("R3", key_, (SPECIES, fn.lineno), f"no return consults all of {want}", expected=f"self.{attr} or {user}.get(..) or <built-in>", found=found)
         if must_raise:
             raises = [f for f in fl.facts if f.kind == "raise"]
             ctx.check(bool(raises), "R3", f"Species.{prop}:raises", (SPECIES, fn.lineno), "a surface species without any binding energy is refused with an error")
@@ -561,7 +606,14 @@ def _r3(ctx, pkg):
 HH = "naunet/grains/hh93grain.py"
 RR = "naunet/grains/rr07grain.py"
 GR = "naunet/grains/grain.py"
+_EB_CHAIN = "        eb = (\n            self._binding_energy\n            or chemistrydata.user_binding_energy.get(self.name)\n            or chemistrydata.rate12_binding_energy.get(self.gasname)\n        )\n"
 MUTANTS = [
+    {"name": "binding-energy-user-table-before-explicit", "file": SPECIES, "old": _EB_CHAIN,
+     "new": "        eb = (\n            chemistrydata.user_binding_energy.get(self.name)\n            or self._binding_energy\n            or chemistrydata.rate12_binding_energy.get(self.gasname)\n        )\n", "rules": ["R3"]},
+    {"name": "binding-energy-guard-clauses-table-before-user", "file": SPECIES, "old": _EB_CHAIN,
+     "new": "        if self._binding_energy:\n            return self._binding_energy\n        tab = chemistrydata.rate12_binding_energy.get(self.gasname)\n        if tab:\n            return tab\n        eb = chemistrydata.user_binding_energy.get(self.name)\n", "rules": ["R3"]},
+    {"name": "binding-energy-user-table-skipped", "file": SPECIES, "old": _EB_CHAIN,
+     "new": "        eb = (\n            self._binding_energy\n            or chemistrydata.rate12_binding_energy.get(self.gasname)\n        )\n", "rules": ["R3"]},
     {"name": "create-species-copies-instances", "file": "naunet/component.py", "old": "        if isinstance(species_name, Species):\n            return species_name\n", "new": "        if isinstance(species_name, Species):\n            return __import__('copy').copy(species_name)\n", "rules": ["R8"]},
     {"name": "renderer-swallows-not-implemented", "file": "naunet/templateloader.py", "old": "            rateexprs = [\n                reac.rateexpr(grain_dict.get(reac.grain_group)) for reac in reactions\n            ]", "new": "            rateexprs = []\n            for reac in reactions:\n                try:\n                    rateexprs.append(reac.rateexpr(grain_dict.get(reac.grain_group)))\n                except NotImplementedError:\n                    rateexprs.append('0.0')", "rules": ["R9"]},
     {"name": "binding-table-key-truncated", "file": "naunet/chemistrydata/__init__.py", "old": "                binding_energy.update({elem: float(eb)})", "new": "                binding_energy.update({elem.rstrip('+-'): float(eb)})", "rules": ["R7"]},
@@ -585,6 +637,13 @@ MUTANTS = [
     {"name": "yield-default-changed", "file": RR, "old": "{spec.photon_yield or 0.1}", "new": "{spec.photon_yield or 1e-3}", "rules": ["R5"]},
 ]
 BENIGN = [
+    {"name": "binding-energy-guard-clauses", "file": SPECIES, "old": _EB_CHAIN,
+     "new": "        own = self._binding_energy\n        if own:\n            return own\n        usr = chemistrydata.user_binding_energy.get(self.name)\n        if usr:\n            return usr\n        eb = chemistrydata.rate12_binding_energy.get(self.gasname)\n"},
+    {"name": "photon-yield-guard-clause", "file": SPECIES, "old": "        return self._photon_yield or chemistrydata.user_photon_yield.get(self.name, 0.0)\n",
+     "new": "        if self._photon_yield:\n            return self._photon_yield\n        return chemistrydata.user_photon_yield.get(self.name, 0.0)\n"},
+    {"name": "dispatch-tail-as-table-scan", "file": GR,
+     "old": "        elif rtype == ReactionType.GRAIN_DESORB_REACTIVE:\n            rate = self.rate_reactive_desorption(reac)\n\n        elif rtype == ReactionType.GRAIN_ECAPTURE:\n            rate = self.rate_electron_capture(reac)\n\n        else:\n            raise ValueError(\n                f\"Unknown reaction type in {self.model} dust model: {rtype}\"\n            )\n",
+     "new": "        else:\n            builders = (\n                (ReactionType.GRAIN_DESORB_REACTIVE, \"rate_reactive_desorption\"),\n                (ReactionType.GRAIN_ECAPTURE, \"rate_electron_capture\"),\n            )\n            for known_type, builder_name in builders:\n                if rtype == known_type:\n                    rate = getattr(self, builder_name)(reac)\n                    break\n            else:\n                raise ValueError(\n                    f\"Unknown reaction type in {self.model} dust model: {rtype}\"\n                )\n"},
     {"name": "factors-reordered", "file": HH, "old": '                f"{opt_thd} * {cov}",\n                f"{nMono} * {densites}",', "new": '                f"{nMono} * {densites}",\n                f"{cov} * {opt_thd}",'},
     {"name": "sqrt-as-pow", "file": GR, "old": 'f"sqrt(8.0 * kerg * {tgas}/ (pi*amu*{spec.A}))"', "new": 'f"pow(8.0 * kerg * {tgas}/ (pi*amu*{spec.A}), 0.5)"'},
 ]
